@@ -275,6 +275,10 @@ func (v *collator_[V]) compareValues(first ref.Value, second ref.Value) bool {
 			return second.IsNil()
 		case second.IsNil():
 			return false // We know that first isn't nil.
+		case v.holdsMap(first) || v.holdsMap(second):
+			// The associations of a map held in an interface have no defined
+			// order so it is compared as a map rather than as a sequence.
+			return v.compareValues(v.unwrap(first), v.unwrap(second))
 		case first.MethodByName("AsArray").IsValid():
 			// The value is a sequence.
 			return v.compareSequences(first, second)
@@ -343,6 +347,17 @@ func (v *collator_[V]) getType(type_ ref.Type) string {
 		result = "complex"
 	}
 	return result
+}
+
+func (v *collator_[V]) holdsMap(value ref.Value) bool {
+	return value.Kind() == ref.Interface && value.Elem().Kind() == ref.Map
+}
+
+func (v *collator_[V]) unwrap(value ref.Value) ref.Value {
+	if value.Kind() == ref.Interface {
+		return value.Elem()
+	}
+	return value
 }
 
 func (v *collator_[V]) rankArrays(first ref.Value, second ref.Value) Rank {
@@ -776,6 +791,10 @@ func (v *collator_[V]) rankValues(first ref.Value, second ref.Value) Rank {
 			return LesserRank
 		case second.IsNil():
 			return GreaterRank // We know that first isn't nil.
+		case v.holdsMap(first) || v.holdsMap(second):
+			// The associations of a map held in an interface have no defined
+			// order so it is ranked as a map rather than as a sequence.
+			return v.rankValues(v.unwrap(first), v.unwrap(second))
 		case first.MethodByName("AsArray").IsValid():
 			// The value is a collection.
 			return v.rankSequences(first, second)
